@@ -375,6 +375,36 @@ func g6LoopStateAcrossCalls() []BashCase {
 	return cases
 }
 
+// G7: names of one frame that look like names derived from another frame: a global spelled
+// <function>_<local>, a local spelled <x>_<y> in function <f> next to local <y> in function <f>_<x>.
+func g7DerivedNames() []BashCase {
+	cases := []BashCase{}
+	cases = append(cases, BashCase{Key: "G7/global-named-function-underscore-local", Prog: SingleFile([]Stmt{
+		def("scale_factor", il(10)),
+		fn("scale", []Param{{"v", TInt}}, []Type{TInt}, def("factor", il(2)), ret(bin("*", vr("v"), vr("factor")))),
+		pr(call("scale", il(3)), vr("scale_factor")), pr(bin("*", call("scale", il(1)), vr("scale_factor"))),
+	})})
+	cases = append(cases, BashCase{Key: "G7/local-of-prefix-function", Prog: SingleFile([]Stmt{
+		fn("get_max", []Param{{"a", TInt}}, []Type{TInt}, def("v", bin("+", vr("a"), il(1000))), ret(vr("v"))),
+		fn("get", []Param{{"a", TInt}}, []Type{TInt}, def("max_v", il(20)), def("r", call("get_max", vr("a"))), ret(bin("+", vr("r"), vr("max_v")))),
+		pr(call("get", il(0))),
+	})})
+	cases = append(cases, BashCase{Key: "G7/param-and-global", Prog: SingleFile([]Stmt{
+		def("add_n", il(7)), def("n_add", il(9)),
+		fn("add", []Param{{"n", TInt}}, []Type{TInt}, set("add_n", bin("+", vr("add_n"), il(1))), ret(bin("+", vr("n"), vr("n_add")))),
+		def("got", call("add", il(1))), pr(vr("got"), vr("add_n"), vr("n_add")),
+	})})
+	cases = append(cases, BashCase{Key: "G7/same-call-twice-in-one-expression", Prog: SingleFile([]Stmt{
+		fn("sq", []Param{{"a", TInt}}, []Type{TInt}, ret(bin("*", vr("a"), vr("a")))),
+		fn("add", []Param{{"a", TInt}, {"b", TInt}}, []Type{TInt}, ret(bin("+", vr("a"), vr("b")))),
+		fn("pair", nil, []Type{TInt, TInt}, ret(call("sq", il(2)), call("sq", il(3)))),
+		pr(bin("+", call("sq", il(2)), call("sq", il(3))), call("add", call("sq", il(2)), call("sq", il(3))), call("add", call("add", il(1), il(2)), call("add", il(3), il(4)))),
+		pr(call("sq", il(2)), call("sq", il(3))), VarDecl{Names: []string{"u", "w"}, Short: true, Values: []Expr{call("pair")}}, pr(vr("u"), vr("w")),
+		fn("inner", nil, []Type{TInt}, ret(bin("-", call("sq", il(5)), call("sq", il(4))))), pr(call("inner")),
+	})})
+	return cases
+}
+
 func c02Families(c *Check) []BashCase {
 	cases := []BashCase{}
 	cases = append(cases, g1NameReuse()...)
@@ -383,6 +413,12 @@ func c02Families(c *Check) []BashCase {
 	cases = append(cases, g4ReturnRegisters()...)
 	cases = append(cases, g5Simultaneous()...)
 	cases = append(cases, g6LoopStateAcrossCalls()...)
+	cases = append(cases, g7DerivedNames()...)
+	// arguments and results that are slices (reference semantics across frames): the aliasing family of C03
+	for _, bc := range s3Aliasing() {
+		bc.Key = "G8/" + bc.Key
+		cases = append(cases, bc)
+	}
 	return cases
 }
 
